@@ -216,6 +216,14 @@ def _limb_ops(W, L, sg, tier):
            ("neg", "return -a;", one, W, lambda cx, v: la.pscale(v[0], -1)),
            ("inc", "T r = a; ++r; return r;", one, W, lambda cx, v: la.padd(v[0], la.const(1))),
            ("dec", "T r = a; --r; return r;", one, W, lambda cx, v: la.padd(v[0], la.const(-1)))]
+    # comparisons: the result is the truth value of the comparison of the mathematical (signed) values
+    def val(cx, x):
+        return la.sval(cx, x, W) if sg else x
+    cmps = [("lt", "<", lambda cx, v: la.LT(cx, val(cx, v[0]), val(cx, v[1]))), ("gt", ">", lambda cx, v: la.LT(cx, val(cx, v[1]), val(cx, v[0]))),
+            ("le", "<=", lambda cx, v: la.padd(la.const(1), la.LT(cx, val(cx, v[1]), val(cx, v[0])), -1)), ("ge", ">=", lambda cx, v: la.padd(la.const(1), la.LT(cx, val(cx, v[0]), val(cx, v[1])), -1)),
+            ("eq", "==", lambda cx, v: la.padd(la.const(1), la.Z(cx, la.padd(v[0], v[1], -1)), -1)), ("ne", "!=", lambda cx, v: la.Z(cx, la.padd(v[0], v[1], -1)))]
+    for (nm, sym, spec) in cmps:
+        ops.append((nm, "return a %s b;" % sym, two, 8, spec))
     for k in ks:
         if not (0 < k < W):
             continue
@@ -240,7 +248,7 @@ def limb_rules(r, work, tier, seed):
         src += "using LT%d = cnl::wide_integer<%d, %s>;\n" % (ti, D, N)
         for (name, body, opds, RW, spec) in _limb_ops(W, L, sg, tier):
             fname = "lk%d_%s" % (ti, name)
-            src += 'extern "C" LT%d %s(%s) { using T = LT%d; %s }\n' % (ti, fname, ", ".join("LT%d %s" % (ti, o[0]) for o in opds), ti, body)
+            src += 'extern "C" %s %s(%s) { using T = LT%d; %s }\n' % ("bool" if RW == 8 else "LT%d" % ti, fname, ", ".join("LT%d %s" % (ti, o[0]) for o in opds), ti, body)
             plan.append((fname, "wide_integer<%d, %s>" % (D, N.replace("std::", "")), name, W, L, opds, RW, spec))
     # positive control: a + b judged against a - b must be refuted with a counterexample
     src += 'extern "C" LT0 lk_control(LT0 a, LT0 b) { return a + b; }\n'
@@ -295,7 +303,7 @@ def limb_rules(r, work, tier, seed):
     return cnt, und, len(types)
 
 
-LIMB_FLOOR = {"quick": 144, "thorough": 1800}
+LIMB_FLOOR = {"quick": 192, "thorough": 2254}
 
 
 def run(tier, seed, work):
